@@ -255,7 +255,9 @@ func (seg *Segment) Match(ctx *types.Context) bool {
 				ctx.Path = ctx.Path[loc[1]:]
 				return true
 			}
-		} else if loc := seg.expr.FindStringSubmatchIndex(ctx.Path); loc != nil && loc[0] == 0 {
+		} else if loc := seg.expr.FindStringSubmatchIndex(ctx.Path); loc != nil && loc[0] == 0 && loc[2] == 0 {
+			// loc[2] == 0 保证了参数对应的分组确实参与了匹配：
+			// 诸如 a)|(b 的表达式会提前结束分组，匹配的可能是分组之外的内容，此时 loc[2] 和 loc[3] 均为 -1。
 			ctx.Set(seg.Name, ctx.Path[:loc[3]]) // 只有 ignoreName == false，才会有捕获的值
 			ctx.Path = ctx.Path[loc[1]:]
 			return true
